@@ -123,7 +123,7 @@ func findResequencers(c *Ctx) []*reseq {
 
 func init() {
 	register(&Rule{
-		ID: "W-1", Props: []string{"C04", "C03", "C18", "C05"}, Min: 4,
+		ID: "W-1", Props: []string{"C04", "C03", "C18", "C05", "C01"}, Min: 4,
 		Doc: `re-sequencer drain parity: in every re-sequencing buffer (branch 'number == next', drain loop over a map keyed by next, else-branch storing the early item)
 the in-order branch and the drain loop perform the same emission — same calls on the same sink under the same guards with the same error handling (factoring into a helper passes) —
 the counter starts at 0 and is incremented exactly once after each emission, early items are stored under their own number, and the drain looks up the incremented counter.`,
